@@ -13,7 +13,8 @@ CORE_RULES = {"Root": [gen_lex.named("Ident", "[a-zA-Z]+"), gen_lex.named("Int",
                        gen_lex.named("Comment", "#[a-z]*#"), gen_lex.named("WS", "\\s+")]}
 
 PARSE_EPS = ["ParseString", "ParseBytes", "Parse", "ParseString+Trace", "ParseBytes+Trace", "ParseFromLexer",
-             "Parse(DataErrReader)", "Parse(OneByteReader)", "Parse(named reader)", "Parse(no filename, reader named fn)"]
+             "Parse(DataErrReader)", "Parse(OneByteReader)", "Parse(named reader)", "Parse(no filename, reader named fn)",
+             "ParseFromLexer(Parser.Lexer())"]
 LEX_EPS = ["Lex", "def.Lex", "def.LexString", "def.LexBytes", "Lex(DataErrReader)", "Lex(named reader)", "def.Lex(DataErrReader)"]
 
 
@@ -91,8 +92,8 @@ def run(pid, tier, args):
                     louts = {ep: eps[ep] for ep in ("Lex", "Lex(DataErrReader)", "Lex(named reader)") if ep in eps}
                     dl = {ep: eps[ep] for ep in ("def.Lex", "def.LexString", "def.LexBytes", "def.Lex(DataErrReader)") if ep in eps}
                     if len(set(outs.values())) > 1 or len(set(louts.values())) > 1 or len(set(dl.values())) > 1:
-                        nb = key[2] - len(g["inputs"])
-                        v.violation("[%s lexer] grammar %s lookahead %d input BOM+%r: entry points disagree: %s" % (variant, key[0], key[1], g["inputs"][nb]["s"], json.dumps({**outs, **louts, **dl})[:500]),
+                        nb = min(key[2] - len(g["inputs"]), len(g["inputs"]) - 1)
+                        v.violation("[%s lexer] grammar %s lookahead %d extra input #%d (BOM+%r or a very long token): entry points disagree: %s" % (variant, key[0], key[1], key[2] - len(g["inputs"]), g["inputs"][nb]["s"], json.dumps({**outs, **louts, **dl})[:500]),
                                     {"property": pid, "kind": "api-bom", "variant": variant, "calls": eps})
                     continue
                 inp = g["inputs"][key[2]]["s"]
